@@ -177,12 +177,42 @@ def check(ctx: Ctx) -> str:
     ctx.check("has_safe_repr(const)" in ast.unparse(nat.node), "native:safe-repr", "nativetypes:NativeCodeGenerator._output_child_to_const", "safe repr gate", "native constant output must refuse values without a safe repr", nat.loc())
     r3_safe_repr(ctx)
     visitor_forwarding_rule(ctx, "R4")
+    lookup_fold_agreement_rule(ctx, "R6")
     # the fold tables are the run-time operators (rule owned by C02): a folded comparison /
     # arithmetic must apply the operands in the order the emitted code does
     from . import c02
 
     ctx.run_imported("C02", {"R2"}, c02.check)
     return __doc__ or ""
+
+
+def lookup_fold_agreement_rule(ctx: Ctx, rid: str) -> None:
+    """A folded `x.name` / `x[key]` uses the lookup the emitted code uses (shared with C02: the
+    attribute form prefers attributes, the subscript form items - also for constants)."""
+    import re as _re
+
+    ctx.rule(rid, "folding agrees with the emitted lookup: Getattr.as_const / visit_Getattr both go through environment.getattr, Getitem.as_const / visit_Getitem through environment.getitem")
+    for cname, want in (("Getattr", "getattr"), ("Getitem", "getitem")):
+        fold = ctx.repo.func(f"nodes:{cname}.as_const")
+        vis = ctx.repo.func(f"compiler:CodeGenerator.visit_{cname}")
+        used = set()
+        for c in astq.calls(fold.node):
+            f_ = astq.callee(c)
+            if f_.endswith((".getattr", ".getitem")) and "environment" in f_:
+                used.add(f_.rsplit(".", 1)[1])
+            elif f_ in ("getattr", "operator.getitem"):
+                used.add("builtin " + f_)
+        used |= {"subscript"} if any(isinstance(x, ast.Subscript) and isinstance(x.ctx, ast.Load) and not isinstance(getattr(x, "_parent", None), ast.AnnAssign) and "as_const" in ast.unparse(x.value) for x in ast.walk(fold.node)) else set()
+        emitted = set()
+        for c in astq.calls(vis.node):
+            if astq.attr_tail(c) in ("write", "writeline") and c.args:
+                for k in ast.walk(c.args[0]):
+                    if isinstance(k, ast.Constant) and isinstance(k.value, str):
+                        emitted |= set(_re.findall(r"environment\.(\w+)\(", k.value))
+        ok = used == {want} and emitted == {want}
+        ctx.check(ok, f"{cname}:lookup", f"nodes:{cname}.as_const", f"fold uses {sorted(used)}, emitted code uses {sorted(emitted)}",
+                  f"{cname}.as_const looks the constant up through {sorted(used)} while visit_{cname} emits environment.{sorted(emitted)}(...) (expected environment.{want} in both): a constant receiver (`{{{{ {{'items': 1}}.items }}}}`, `{{{{ ''.__class__ }}}}` in the sandbox) is resolved differently when the optimizer folds it than when the same expression runs - attribute-first vs item-first, or without the sandbox check",
+                  fold.loc(), detail={"fold": sorted(used), "emitted": sorted(emitted)})
 
 
 def async_fold_rule(ctx: Ctx, ft: ast.AST | None = None) -> None:
